@@ -43,7 +43,7 @@ PROP = {
                   "is stated with witnesses; F17, F101, F102, F103 are recorded split/strictness defects.",
     "trusted_base": COMMON_TRUST + [
         "modelled, not verified: bytes::BytesMut (a byte list), tokio_util::codec::FramedRead (append, then decode "
-        "until Ok(None)), std::str::from_utf8 (re-implemented as utf8Valid), the allocator (a single allocation >= 256 MiB fails "
+        "until Ok(None)), std::str::from_utf8 (re-implemented as utf8Valid), the allocator (a single allocation >= 293 000 000 bytes fails "
         "in the harness by construction, so a reserve of that size aborts)",
         "not modelled (exercised implementation-against-original only): swimos_recon RecognizerDecoder / "
         "WithLenRecognizerDecoder and every decoder with a Recon body",
